@@ -294,13 +294,15 @@ THEORY_DECLS = {
                    '(define-fun di ((p Bool)) Int 1)',
                    '(declare-const ai (Array Bool Int))',
                    '(declare-fun gi (Bool) (Array Real Bool))',
-                   '(declare-fun pi (Int) Bool)'],
+                   '(declare-fun pi (Int) Bool)',
+                   '(define-sort MyI () Int)'],
     'bv': ['(declare-const b (_ BitVec 8))',
            '(declare-fun fb (Bool) (_ BitVec 4))',
            '(define-fun db ((p Bool)) (_ BitVec 2) #b01)',
            '(declare-const ab (Array (_ BitVec 4) (_ BitVec 8)))',
            '(declare-fun gb (Bool) (Array Bool (_ BitVec 8)))',
-           '(define-fun pb ((v (_ BitVec 8))) Bool true)'],
+           '(define-fun pb ((v (_ BitVec 8))) Bool true)',
+           '(define-sort MyW () (_ BitVec 8))'],
     'datatypes': ['(declare-datatype A ((C)))',
                   '(declare-datatypes ((B 0)) (((D))))'],
     'fp': ['(declare-const f Float32)',
@@ -308,15 +310,17 @@ THEORY_DECLS = {
            '(declare-fun ff (Bool) (_ FloatingPoint 5 11))',
            '(declare-const af (Array Bool Float64))',
            '(declare-fun gf (Bool) (Array (_ FloatingPoint 8 24) Bool))',
-           '(declare-fun pf (Float16 Bool) Bool)'],
+           '(declare-fun pf (Float16 Bool) Bool)',
+           '(define-sort MyF () Float32)'],
     'strings': ['(declare-const s String)',
                 '(declare-fun fq (Bool) (Seq Bool))',
                 '(define-fun ds ((p Bool)) String "a")',
                 '(declare-const as (Array Bool String))',
                 '(declare-fun gs (Bool) (Array Bool (Seq Bool)))',
-                '(declare-fun ps (String) Bool)'],
+                '(declare-fun ps (String) Bool)',
+                '(define-sort MyS () String)'],
 }
-NFORMS = 6
+NFORMS = 7
 NEUTRAL = ['(set-logic ALL)', '(declare-const p Bool)', '(assert p)',
            '(declare-sort U 0)', '(check-sat)']
 
@@ -646,7 +650,7 @@ def partitions(tier):
             parts.append({'name': f'passes2_{k}',
                           'fn': make_passes2(pairs[k:k + 60]),
                           'budget_s': bud})
-    for v in ((0, 1, 3, 5) if tier == 'quick' else range(NFORMS)):
+    for v in ((0, 1, 3, 5, 6) if tier == 'quick' else range(NFORMS)):
         for plo in range(0, 32, 4):
             parts.append({'name': f'detect_{v}_{plo}',
                           'setup': _wrap_is_relevant,
